@@ -51,6 +51,122 @@ class StepTimeout(BaseException):
     """Raised by the SIGALRM guard inside a library call."""
 
 
+# --------------------------------------------------------------------------- run isolation
+
+class GlobalsGuard:
+    """Process-global mutable state of the library (module-level containers, class-level
+    containers, memoised functions, mutable default arguments).  A run that changed one of
+    these would make the next run in the same worker depend on it, i.e. on the worker count;
+    so every run starts from the state recorded at engine construction.  Restoration is done
+    *in place* (clear + refill) so that references held elsewhere stay valid."""
+
+    CONTAINERS = (dict, list, set)
+
+    def __init__(self, modules, classes=()):
+        import copy
+        self.items = []
+        self.funcs = []
+        seen = set()
+        for owner in list(modules) + list(classes):
+            for name, val in list(vars(owner).items()):
+                if name in ("__dict__", "__weakref__", "__doc__", "__module__", "__builtins__",
+                            "__annotations__", "__all__", "__path__", "__slots__"):
+                    continue
+                if isinstance(val, self.CONTAINERS) and id(val) not in seen and not name.startswith("__"):
+                    seen.add(id(val))
+                    try:
+                        self.items.append((owner, name, val, copy.deepcopy(val)))
+                    except Exception:
+                        pass
+                f = getattr(val, "__func__", val)
+                d = getattr(f, "__defaults__", None)
+                if d and any(isinstance(x, self.CONTAINERS) for x in d):
+                    try:
+                        self.funcs.append((f, d, copy.deepcopy(d)))
+                    except Exception:
+                        pass
+        self.modules = list(modules)
+        self.dirty = 0
+        self.cached = [val for mod in self.modules for val in vars(mod).values()
+                       if callable(getattr(val, "cache_clear", None))]
+        self.sizes = [len(vars(mod)) for mod in self.modules]
+
+    def restore(self):
+        import copy
+        for owner, name, obj, initial in self.items:
+            try:
+                if obj != initial:
+                    self.dirty += 1
+                    obj.clear()
+                    if isinstance(obj, dict):
+                        obj.update(copy.deepcopy(initial))
+                    elif isinstance(obj, list):
+                        obj.extend(copy.deepcopy(initial))
+                    else:
+                        obj |= copy.deepcopy(initial)
+                if getattr(owner, name, None) is not obj:
+                    setattr(owner, name, obj)
+            except Exception:
+                pass
+        for f, objs, initial in self.funcs:
+            for obj, ini in zip(objs, initial):
+                if isinstance(obj, self.CONTAINERS):
+                    try:
+                        if obj != ini:
+                            self.dirty += 1
+                            obj.clear()
+                            if isinstance(obj, dict):
+                                obj.update(copy.deepcopy(ini))
+                            elif isinstance(obj, list):
+                                obj.extend(copy.deepcopy(ini))
+                            else:
+                                obj |= copy.deepcopy(ini)
+                    except Exception:
+                        pass
+            try:
+                if f.__defaults__ is not objs:
+                    f.__defaults__ = objs
+            except Exception:
+                pass
+        # memoised functions (functools caches)
+        for val in self.cached:
+            try:
+                val.cache_clear()
+            except Exception:
+                pass
+        # containers / caches that appeared at module level since construction (lazily created)
+        if [len(vars(mod)) for mod in self.modules] != self.sizes:
+            known = {(id(o), n) for o, n, _, _ in self.items}
+            for mod in self.modules:
+                for name, val in list(vars(mod).items()):
+                    if name.startswith("__") or (id(mod), name) in known:
+                        continue
+                    if isinstance(val, self.CONTAINERS) and val:
+                        self.dirty += 1
+                        try:
+                            val.clear()
+                        except Exception:
+                            pass
+                    cc = getattr(val, "cache_clear", None)
+                    if callable(cc) and val not in self.cached:
+                        self.cached.append(val)
+
+
+def library_guard():
+    import importlib
+    mods = [importlib.import_module(m) for m in (
+        "geometry_tools.automata.fsa", "geometry_tools.automata.gap_parse",
+        "geometry_tools.automata.kbmag_utils", "geometry_tools.representation",
+        "geometry_tools.projective", "geometry_tools.hyperbolic", "geometry_tools.utils.words",
+        "geometry_tools.utils.core", "geometry_tools.lie.core", "geometry_tools.lie.hom")]
+    classes = []
+    for m in mods:
+        for v in vars(m).values():
+            if isinstance(v, type) and getattr(v, "__module__", "").startswith("geometry_tools"):
+                classes.append(v)
+    return GlobalsGuard(mods, classes)
+
+
 # --------------------------------------------------------------------------- seeds
 
 def run_rng(prop, seed, run):
